@@ -1445,3 +1445,36 @@ def resplit(tier, seed, ci, nc, count=20000):
 
 
 STREAMS['resplit'] = resplit
+
+
+def readsigtext(tier, seed, ci, nc, count=6000):
+    """the whole of support.read_sig, from the TEXT, against Model/ReadSigText.readSigText (split, regular expression, from the
+    groups to pieces, the loop): the texts of the universe in three spacings x 8 option combinations, then random texts over
+    an alphabet with stars, chevrons, slashes, colons and equal signs"""
+    rng = _rng(seed, 'readsigtext', ci)
+    from . import real_r8
+
+    def gen():
+        for j, ps0 in enumerate(U('ab', 2) if tier == 'quick' else U('abc', 3)):
+            pcs, prev = [], None
+            for i, (n, k, d) in enumerate(p[:3] for p in ps0):
+                if prev == 'po' and k != 'po':
+                    pcs.append(('S',))
+                if k == 'ko' and prev not in ('vp', 'ko'):
+                    pcs.append(('B',))
+                pcs.append(({'vp': 's1', 'vk': 's2'}.get(k, 'p'), n, 40 + i if (i + j) % 2 else None, None if d is None else 3 + i))
+                prev = k
+            if prev == 'po':
+                pcs.append(('S',))
+            for sep in (', ', ',', ',   '):
+                text = real_r8.text_of(pcs, sep)
+                for ua, upo, ukw in itertools.product((0, 1), repeat=3):
+                    yield ('readsigtext', ua, upo, ukw, text)
+        alpha = ['a', 'b', 'args', 'kw', '*', '**', '<', '>', '/', ':', '=', ',', ', ', ' ', '40', '3']
+        for _ in range(count):
+            text = ''.join(rng.choice(alpha) for _ in range(rng.randint(0, 9)))
+            yield ('readsigtext', rng.randint(0, 1), rng.randint(0, 1), rng.randint(0, 1), text)
+    return _slice(gen(), ci, nc)
+
+
+STREAMS['readsigtext'] = readsigtext
